@@ -1,7 +1,7 @@
 """C03  intervals.determine <-> intervals.from_shorthand; invert."""
 from typing import List
 
-from vf.claim import Claim, assume, real
+from vf.claim import Claim, assume, fork, pick, real, warm_cold
 from vf.ref.theory import LETTERS, MAJOR_SIZE, NAT, is_name, letter_dist, letter_up, net, pc, spelled, unmixed
 
 from mingus.core import intervals
@@ -61,6 +61,19 @@ def c03_from_shorthand(n: str, acc: str) -> bool:
     return back[0] == n[0] and pc(back) == pc(n)
 
 
+PRIOR = [("C", "#4", False), ("C#", "4", False), ("C", "b3", False), ("Cb", "5", True), ("F#", "b7", False), ("B", "2", True), ("E", "#1", False), ("Gb", "6", False)]
+
+
+def c03_history(pi: int, n: str, acc: str, up: bool) -> bool:
+    """an interval application gives the same note whatever was asked before (its result in the initial state of all
+    module-level state); prior call from a list of representative ones, the query symbolic"""
+    deg = P["deg"]
+    pn, ps, pu = pick(PRIOR, pi)
+    sh = acc + str(deg)
+    up = fork(up)
+    return warm_cold(lambda: intervals.from_shorthand(pn, ps, pu), lambda: intervals.from_shorthand(n, sh, up))
+
+
 def c03_default_up(n: str) -> bool:
     sh = P["sh"]
     return intervals.from_shorthand(n, sh) == intervals.from_shorthand(n, sh, True)
@@ -82,6 +95,7 @@ def claims(tier):
         cl.append(Claim("determine_extreme[a0=%s]" % L, c03_determine, params={"L": L}, group="c03_determine", pre=[lambda a, b: a[:1] == P["L"] and len(a) == 3 and len(b) == 3 and a[1] == a[2] and b[1] == b[2] and a[1] != b[1] and spelled(a, 2) and spelled(b, 2)], timeout=400 if q else 2400, bounds="a = %s## or %sbb against b = letter + the opposite double accidental (the widest and narrowest intervals of every number)" % (L, L)))
     Kn = 1 if q else 2
     for deg in range(1, 8):
+        cl.append(Claim("history[deg=%d]" % deg, c03_history, params={"deg": deg}, group="c03_history", pre=[lambda pi, n, acc: 0 <= pi < (3 if q else len(PRIOR)) and spelled(n, 1) and spelled("C" + acc, 1)], timeout=900 if q else 3000, bounds="prior: %d representative applications; query: n = letter + {#,b}^<=1, shorthand {#,b}^<=1 + '%d', up and down (symbolic): warm result == result in the initial state" % (3 if q else len(PRIOR), deg)))
         cl.append(Claim("from_shorthand[deg=%d]" % deg, c03_from_shorthand, params={"deg": deg, "K": Kn}, pre=[lambda n, acc: spelled(n, P["K"]) and spelled("C" + acc, 2)], timeout=400 if q else 2400, bounds="n = letter + {#,b}^<=%d; shorthand = {#,b}^<=2 + '%d'; up, down, up-then-down" % (Kn, deg)))
     cl.append(Claim("from_shorthand_default_up", c03_default_up, params={"sh": "b3"}, pre=[lambda n: spelled(n, 1)], timeout=120, bounds="n = letter + {#,b}^<=1; default direction is up"))
     cl.append(Claim("invert", c03_invert, pre=[lambda l: len(l) <= (4 if q else 6)], timeout=120, bounds="l: every list of ints, len <= %d" % (4 if q else 6)))
